@@ -171,7 +171,7 @@ def cseg_field_guard(repo, col):
 # ---------------------------------------------------------------------
 # O3: guards of compute_dyadic_downscaling
 # ---------------------------------------------------------------------
-def _scale_sources(fn, defs):
+def _scale_sources(fn, defs, direct_only=False):
     """Classify local names by which scale's field they derive from:
     returns {name: set of (which, field)} with which in {old,new},
     field in {size, chunk_sizes}."""
@@ -189,6 +189,8 @@ def _scale_sources(fn, defs):
     for name in defs:
         tags = set()
         clos = closure_names(fn.node, [name], defs)
+        if direct_only:
+            clos = {name}
         for n in clos:
             for d in defs.get(n, []):
                 if d.value is None:
@@ -216,7 +218,8 @@ def pyramid_guards(repo, col):
     fn = repo.func("dyadic_pyramid", "compute_dyadic_downscaling")
     cfg = fn.cfg()
     defs = local_defs(fn.node)
-    src = _scale_sources(fn, defs)
+    src_all = _scale_sources(fn, defs)
+    src_direct = _scale_sources(fn, defs, direct_only=True)
     # the chunk loop: the `for` whose body calls write_chunk
     loop = None
     for st in stmts_of(fn.node):
@@ -229,7 +232,8 @@ def pyramid_guards(repo, col):
                             "in %s" % fn.key)
     target = cfg.node_of(loop)
 
-    def guard_nodes(required):
+    def guard_nodes(required, table=None):
+        src = table if table is not None else src_all
         res = []
         for n in cfg.nodes:
             if n.kind != "test" or not isinstance(n.ast, ast.If):
@@ -257,7 +261,10 @@ def pyramid_guards(repo, col):
              "the two-pieces-per-axis assembly silently writes wrong data "
              "(NumPy broadcasting) when the chunk sizes of the two scales are "
              "not in ratio 1 or 2 after downscaling")):
-        g = guard_nodes(required)
+        # the size relation must be tested on the sizes themselves (the
+        # chunk-size guard also touches quantities derived from them)
+        g = guard_nodes(required, src_direct if ("old", "size") in required
+                        else None)
         ok = bool(g) and cfg.every_path_passes(cfg.entry, target, g)
         col.add(rule, fn, label, ok,
                 "a raising guard relating %s dominates the chunk loop"
